@@ -68,6 +68,10 @@ OTHER_CHECKS = [
      "Entities.tla models the entity tree with one action per public create/delete/use call; TLC enumerates all histories of <= 5 operations over 3 publishers, 2 subscribers, a topic, a writer and a reader, and every transition is replayed through the async API on a participant whose 8-bit publisher/subscriber counters were first advanced to 254, so that the counter wraps inside every replayed history: after every operation all simultaneously existing entities must have distinct instance handles, the call must return (a panic or stall of the worker is a violation) and give the specified result.",
      "5.8, 6 C35", GRAPH_NOTE + " The 16-bit topic/reader/writer counters are not warmed to their wrap (65 536 creations per replay is too slow); RTPS GUIDs are not compared separately (the handle of these entities is their GUID).",
      "explicit TLA+ spec + TLC; every transition replayed through the public API in the deterministic simulation after counter warm-up"),
+    ("C28", "model_checking",
+     "WriterInst.tla: one action per DataWriterAsync call (register_instance, unregister_instance, dispose, write, lookup_instance, enable) on a writer created on a keyed or keyless type, enabled or not yet enabled; the abstract state is the set of registered keys; TLC enumerates all histories of <= 6 calls over 2 keys (39 states, 325 transitions) and every transition is replayed on a real writer inside the deterministic simulation: return code, returned handle (= big-endian key padded to 16 bytes) and, after every step, lookup_instance of every key are compared.",
+     "6 C28", GRAPH_NOTE + " max_instances/OutOfResources and the handle argument of write/dispose/unregister are outside the model; lookup_instance on a keyless type is not constrained.",
+     "explicit TLA+ spec + TLC; every transition replayed through the public API in the deterministic simulation"),
     ("C36", "model_checking",
      "Entities.tla gives the DDS return code of every create / delete / get_qos / delete_contained_entities / delete_participant call as a function of the entity tree (children present, topic in use, already deleted, wrong parent); TLC enumerates all histories of <= 6 operations (2 publishers, 1 subscriber, 2 topics with 2 names, 2 writers, 1 reader; 1 559 states, 7 247 transitions) and every transition is replayed through the async API in the simulation and compared.",
      "5.8, 6 C36", GRAPH_NOTE + " Content-filtered topics and set_listener on deleted entities are not in the model yet.",
